@@ -34,7 +34,7 @@ def expected_tree(mtype, tree, sender, target, seq_text, now, body_len, cksum):
 
 def seq_text_of(case, mode):
     mtype, tree, sender, target, nxt, raw, now = case
-    if mode == "alloc":
+    if mode in ("alloc", "alloc-stale"):
         return str(nxt)
     for n in tree:
         if n[1] == "34":
